@@ -260,3 +260,47 @@ def plan_c10(tier, seed):
              "credential_management", "large_blobs", "ctap1"]
     return [S("c10_" + n, "dispatch of %s through both entry points against a recording mock with symbolic behaviour" % n, sym=12, timeout=1800)
             for n in names]
+
+
+# ---------------------------------------------------------------------------------- C02
+RESP_KINDS = ["ClientPin", "LargeBlobs", "MakeCredential", "GetAssertion", "GetNextAssertion", "CredentialManagement", "GetInfo"]
+
+
+def resp_masks(schema, tier):
+    from . import spec
+    opts = [f.rust for f in schema.fields if not f.required]
+    if tier == Q:
+        sets = [("none", [])] + [("only_" + o, [o]) for o in opts]
+    else:
+        sets = [("none", [])] + [("only_" + o, [o]) for o in opts] + [("pair_%s__%s" % (a, b), [a, b]) for a, b in zip(opts, opts[1:])]
+    return opts, sets
+
+
+@register("C02", "g02", {
+    "functions": ["ctap2::Response::serialize::<N>", "serde-indexed SerializeIndexed expansions of the six response structs",
+                  "serde derive Serialize of nested types", "cbor_smol::ser::*", "cosey RawPublicKey::serialize",
+                  "FilteredPublicKeyCredentialParameters::serialize", "untagged AttestationStatement"],
+})
+def plan_c02(tier, seed):
+    from .gen_resp import encode_harness
+    from .types import Variation
+    from . import spec
+    hs, metas = [], []
+
+    def add(h, configs="rich"):
+        hs.append(h)
+        metas.append(G(h, configs))
+
+    for kind in RESP_KINDS:
+        schema = spec.RESPONSES[kind]
+        opts, sets = resp_masks(schema, tier)
+        if kind == "GetNextAssertion":
+            sets = [("none", []), ("only_user", ["user"])]
+        for mname, pres in sets:
+            feats = [schema.field(o).feature for o in pres if schema.field(o).feature]
+            var = Variation(present={schema.name: pres}, default_present="all", intclass=0, maxlen=8, text="ascii", seed=seed)
+            add(encode_harness("c02_%s_%s" % (schema.name if kind != "GetNextAssertion" else "gna", mname), "C02", kind, var,
+                               "%s response with optional members %s (nested members all present); values symbolic"
+                               % (kind, ",".join(pres) or "none")), configs="all" if mname == "none" else "rich")
+    write_gen("C02", hs)
+    return metas
